@@ -44,6 +44,10 @@ def cases(tier, seed):
         if i % 3 == 1:      # far from the origin: coordinate / cell size of 1e5 .. 1e7
             g["origin"] = [rng.choice([1.0e5, -3.0e5, 2.5e6]) for _ in range(3)]
         cs.append({"kind": "geom", "gen": g, "sel_seed": seed * 53 + i, "npos": 8 if tier == "quick" else 12, "fmt": dict(ref_ratio_extra=rng.choice([0, 0, 1, 3]), trailing_blank=rng.random() < 0.7, close_blank=rng.random() < 0.3, floatfmt=rng.choice(["repr", "17g"]))})
+    # scale: a box of more than 2**20 cells that does not start its binary file
+    for k in range(1 if tier == "quick" else 3):
+        cs.append({"kind": "geom", "scale": "bigbox", "gen": dict(seed=seed * 29 + 1616 + k, names=NAMES, payload="affine"),
+                   "sel_seed": seed * 53 + 1616 + k, "npos": 2, "fmt": {}, "big": True})
     nsplit = 1 if tier == "quick" else 4
     for i in range(nsplit):
         nbx, nby = [(11, 1), (13, 1), (7, 2), (5, 3)][i % 4]     # 11, 13, 14 boxes: not divisible by the file count
